@@ -534,6 +534,40 @@ def run_ops(ops, poll_timer=None):
         b.close()
 
 
+def run_closed(case):
+    """`ops` while the task handler accepts work (every apply task is then run), the real TaskHandler.flush(), then the
+    `closed` register / unregister calls through the real Deep API; state after each."""
+    b = SvcBench()
+    out = {'trace': [], 'closed_trace': [], 'degraded': list(b.degraded)}
+    try:
+        for op in case['ops']:
+            r = b.do(op)
+            r.update(b.snapshot())
+            out['trace'].append(r)
+        n = 0
+        while b.exec.waiting() and n < 100:
+            b.do({'op': 'applyTask', 'i': 0})
+            n += 1
+        try:
+            b.deep.task_handler.flush()
+        except BaseException as e:  # noqa: B902
+            out['flush_raised'] = type(e).__name__
+        out['at_close'] = b.snapshot()
+        for op in case['closed']:
+            r = b.do(op)
+            r.update(b.snapshot())
+            out['closed_trace'].append(r)
+        out['degraded'] = list(b.degraded)
+        return out
+    except core.Infra:
+        raise
+    except BaseException as e:  # noqa: B902
+        out['bench_error'] = f'{type(e).__name__}: {e}'
+        return out
+    finally:
+        b.close()
+
+
 # ------------------------------------------------------------------ line-granular preemption (no model region)
 CONFIG_FILE = os.path.join('config', 'tracepoint_config.py')
 
